@@ -232,6 +232,12 @@ def startDeferralFamilies (fs : List Fam) (t : Tabs) : Tabs := fs.foldl startDef
 
 /-! ## Glue -/
 
+/-- family universe of the correspondence harness -/
+def famUniverse : List Fam := [0, 1, 2]
+
+def flagsOf (t : Tabs) (univ : List Fam) : List Fam := univ.filter (fun f => (t f).deferring)
+
+
 def completeFamilies (outs : List ROut) : List Fam :=
   outs.filterMap fun o => match o with | .famComplete f => some f | _ => none
 
@@ -247,6 +253,9 @@ def endRemaining : List ROut → Option (List Fam)
 structure St where
   sd : Option RInner := none
   tabs : Tabs := fun _ => {}
+  /-- families whose flag is reported in observations (not daemon state): the harness universe
+      {0,1,2} plus every family the configuration names -/
+  univ : List Fam := []
   deriving Inhabited
 
 /-- `process_restarting_outputs` (timer handle bookkeeping omitted) -/
@@ -255,16 +264,17 @@ def applyOuts (s : St) (outs : List ROut) : St × List Change :=
   match endRemaining outs with
   | some remaining =>
       let r2 := endDeferralFamilies remaining r1.1
-      ({ sd := none, tabs := r2.1 }, r1.2 ++ r2.2)
+      ({ s with sd := none, tabs := r2.1 }, r1.2 ++ r2.2)
   | none => ({ s with tabs := r1.1 }, r1.2)
 
 /-- start-up: `RestartingDeferral::new`, `start_deferral_families`, install unless completed -/
 def init (grPeers : List (Peer × List Fam)) (dur : Option Nat) : St × List ROut :=
   let r := new grPeers dur
-  if isCompleted r.1 then ({}, r.2)
+  let univ := dedup (famUniverse ++ grPeers.flatMap (·.2))
+  if isCompleted r.1 then ({ univ := univ }, r.2)
   else
     let fs := r.2.flatMap fun o => match o with | .deferFamilies fs => fs | _ => []
-    ({ sd := some r.1, tabs := startDeferralFamilies fs (fun _ => {}) }, r.2)
+    ({ sd := some r.1, tabs := startDeferralFamilies fs (fun _ => {}), univ := univ }, r.2)
 
 /-- one event of a history -/
 inductive Ev where
@@ -302,10 +312,6 @@ def pendingOf : RInner → Pending
   | .deferring p => p
   | .completed => []
 
-/-- family universe of the correspondence harness -/
-def famUniverse : List Fam := [0, 1, 2]
-
-def flagsOf (t : Tabs) : List Fam := famUniverse.filter (fun f => (t f).deferring)
 
 def step (s : St) : Ev → St × Obs
   | .rd i =>
@@ -315,10 +321,10 @@ def step (s : St) : Ev → St × Obs
           let s1 : St := { s with sd := some r.1 }
           let a := applyOuts s1 r.2
           (a.1, { outs := r.2, changes := a.2, tag := tagOf r.1, pending := pendingOf r.1,
-                  installed := a.1.sd.isSome, flags := flagsOf a.1.tabs })
+                  installed := a.1.sd.isSome, flags := flagsOf a.1.tabs s.univ })
       | none =>
           (s, { outs := [], changes := [], tag := .absent, pending := [], installed := false,
-                flags := flagsOf s.tabs })
+                flags := flagsOf s.tabs s.univ })
   | .ins p f n =>
       let r := insert s.tabs p f n
       ({ s with tabs := r.1 }, obsT s r)
@@ -333,7 +339,7 @@ where
     { outs := [], changes := r.2,
       tag := match s.sd with | some m => tagOf m | none => .absent,
       pending := match s.sd with | some m => pendingOf m | none => [],
-      installed := s.sd.isSome, flags := flagsOf r.1 }
+      installed := s.sd.isSome, flags := flagsOf r.1 s.univ }
 
 def runFrom (s : St) : List Ev → St × List Obs
   | [] => (s, [])
@@ -353,7 +359,7 @@ def initObs (cfg : Cfg) : St × Obs :=
   (r.1, { outs := r.2, changes := [],
           tag := match r.1.sd with | some m => tagOf m | none => .absent,
           pending := match r.1.sd with | some m => pendingOf m | none => [],
-          installed := r.1.sd.isSome, flags := flagsOf r.1.tabs })
+          installed := r.1.sd.isSome, flags := flagsOf r.1.tabs r.1.univ })
 
 def run (cfg : Cfg) (evs : List Ev) : List Obs :=
   let r := initObs cfg
